@@ -646,8 +646,187 @@ def linked_key_file_stream(ctx, res):
                 res.violate("C07:not-created-once", "a missing key file named through a link was not created once and then reused", dict(case, size=None if now is None else len(now)))
 
 
+def middle_key_file_stream(ctx, res):
+    """a key file named in the MIDDLE of a tree — a config-type list item / a config-type field that names its own key file, holding a
+    section and list items of its own, below a root that names another — is the key file of everything below it: it is created once
+    when missing, used verbatim, rejected when malformed (the root's valid key file does not stand in for it), and what is stored
+    below it opens with its bytes and not with the root's"""
+    import base64
+    import cincoconfig as cc
+    from cincoconfig.encryption import KeyFile, SecureValue
+    tmp = ctx.tmpdir()
+    n = [0]
+
+    def opens(keypath, stored):
+        try:
+            with KeyFile(keypath) as kf:
+                return kf.decrypt(SecureValue(stored["method"], base64.b64decode(stored["ciphertext"])))
+        except Exception as e:  # noqa
+            return "raised %s" % type(e).__name__
+    for method in ("xor", "aes"):
+        for state in ("valid", "missing", "malformed-31"):
+            for shape in ("list-item", "field"):
+                n[0] += 1
+                kroot = os.path.join(tmp, "mid-root-%d.key" % n[0])
+                kmid = os.path.join(tmp, "mid-vault-%d.key" % n[0])
+                open(kroot, "wb").write(bytes(range(32)))
+                midkey = bytes(range(100, 132))
+                if state == "valid":
+                    open(kmid, "wb").write(midkey)
+                elif state == "malformed-31":
+                    open(kmid, "wb").write(b"z" * 31)
+                extra = cc.Schema()
+                extra.pin = cc.SecureField(method=method)
+                vault = cc.Schema()
+                vault.name = cc.SecureField(method=method)
+                vault.backup.phrase = cc.SecureField(method=method)
+                vault.creds = cc.ListField(extra, default=lambda: [])
+                V = cc.make_type(vault, "MidVault%d" % n[0], key_filename=kmid)
+                s = cc.Schema()
+                s.top = cc.SecureField(method=method)
+                if shape == "list-item":
+                    s.vaults = cc.ListField(V, default=lambda: [])
+                else:
+                    s.vault = V
+                cfg = s(key_filename=kroot)
+                cfg.top = "top-secret"
+                v = V(name="vault-name")
+                v.backup.phrase = "backup-phrase"
+                v.creds = [{"pin": "1234"}]
+                if shape == "list-item":
+                    cfg.vaults = [v]
+                else:
+                    cfg.vault = v
+                case = {"stream": "middle-key-file", "method": method, "middle_key_file": state, "shape": shape}
+                res.case(stable(case), kind="middle-key-file:" + state)
+                try:
+                    tree = cfg.to_tree()
+                    raised = None
+                except Exception as e:  # noqa
+                    tree, raised = None, type(e).__name__
+                if state == "malformed-31":
+                    if raised is None:
+                        res.violate("C07:middle:malformed-used", "a save succeeded although the key file named in the middle of the tree is malformed (the root's key file stood in for it)", case)
+                    continue
+                if raised is not None:
+                    res.violate("C07:middle:save-failed", "a save failed although every key file is valid or absent: %s" % raised, case)
+                    continue
+                now = open(kmid, "rb").read() if os.path.exists(kmid) else None
+                if now is None or len(now) != 32 or (state == "valid" and now != midkey):
+                    res.violate("C07:middle:not-created-or-modified", "the key file named in the middle of the tree was not created (once, 32 bytes) / was modified", case)
+                    continue
+                vt = tree["vaults"][0] if shape == "list-item" else tree["vault"]
+                below = [("name", vt["name"], b"vault-name"), ("backup.phrase", vt["backup"]["phrase"], b"backup-phrase"), ("creds[0].pin", vt["creds"][0]["pin"], b"1234")]
+                wrong = [label for label, st, plain in below if opens(kmid, st) != plain]
+                if wrong or opens(kroot, tree["top"]) != b"top-secret":
+                    res.violate("C07:middle:other-key-used", "a secret below a configuration that names its own key file was not stored under that key file (the root's was used)",
+                                dict(case, fields=wrong))
+                    continue
+                fresh = s(key_filename=kroot)
+                try:
+                    fresh.loads(cfg.dumps(format="json"), format="json")
+                    fv = fresh.vaults[0] if shape == "list-item" else fresh.vault
+                    got = [fv.name, fv.backup.phrase, fv.creds[0].pin, fresh.top]
+                except Exception as e:  # noqa
+                    got = "raised %s" % type(e).__name__
+                if got != ["vault-name", "backup-phrase", "1234", "top-secret"]:
+                    res.violate("C07:middle:reload", "a document written under a key file named in the middle of the tree does not load back in a new session", dict(case, got=repr(got)[:100]))
+
+
+def provider_hook_and_failed_open_stream(ctx, res):
+    """(a) a `KeyFile` subclass that serves a method of its own through the documented `_get_provider()` hook is held to the same rule as
+    the built-in methods: nothing is encrypted or decrypted outside an open key context — never opened, after the outermost context
+    closed, after a rejected key file; (b) an open that is REFUSED (malformed key file) leaves no reference behind: after the file was
+    repaired one session works, and when it has closed the object holds no key — a later change of the file is seen"""
+    from cincoconfig.encryption import KeyFile, IEncryptionProvider
+
+    class Readable(IEncryptionProvider):
+        def __init__(self, key):
+            self.key = key
+
+        def encrypt(self, text):
+            return b"readable:" + text
+
+        def decrypt(self, ciphertext):
+            return ciphertext[len(b"readable:"):]
+
+    class MyKeyFile(KeyFile):
+        def _get_provider(self, method):
+            if method == "readable":
+                return Readable(b""), "readable"
+            return super()._get_provider(method)
+    tmp = ctx.tmpdir()
+    k = [0]
+    for state in ("never-opened", "after-close", "after-rejected", "missing-file"):
+        k[0] += 1
+        path = os.path.join(tmp, "ph%d.key" % k[0])
+        if state != "missing-file":
+            open(path, "wb").write(b"12345" if state == "after-rejected" else bytes(range(32)))
+        kf = MyKeyFile(path)
+        if state == "after-close":
+            with kf:
+                kf.encrypt("x", method="readable")
+        elif state == "after-rejected":
+            try:
+                with kf:
+                    pass
+            except Exception:  # noqa
+                pass
+        case = {"stream": "provider-hook", "state": state}
+        res.case(stable(case), kind="provider-hook")
+        for op in ("encrypt", "decrypt"):
+            try:
+                if op == "encrypt":
+                    kf.encrypt("x", method="readable")
+                else:
+                    from cincoconfig.encryption import SecureValue
+                    kf.decrypt(SecureValue("readable", b"readable:x"))
+                res.violate("C07:key-retained", "%s worked with no key context open (a method served by a KeyFile subclass through _get_provider())" % op, dict(case, op=op))
+            except Exception:  # noqa
+                pass
+    for then in ("other-valid", "malformed"):
+        k[0] += 1
+        path = os.path.join(tmp, "fo%d.key" % k[0])
+        open(path, "wb").write(b"short")
+        kf = KeyFile(path)
+        for _ in range(2):
+            try:
+                with kf:
+                    pass
+            except Exception:  # noqa
+                pass
+        key1 = bytes(range(32))
+        open(path, "wb").write(key1)
+        case = {"stream": "failed-open", "then_the_file_is": then}
+        res.case(stable(case), kind="failed-open")
+        try:
+            with kf:
+                sv = kf.encrypt("payload", method="xor")
+            used1 = bytes(a ^ b for a, b in zip(sv.ciphertext, b"payload"))
+        except Exception as e:  # noqa
+            res.violate("C07:session-failed", "a session failed although the key file had been repaired: %s" % type(e).__name__, case)
+            continue
+        try:
+            kf.encrypt("x", method="xor")
+            res.violate("C07:key-retained", "after a refused open and a later session, encryption works with no key context open (the refused open left a reference behind)", case)
+            continue
+        except Exception:  # noqa
+            pass
+        key2 = bytes(range(50, 82))
+        open(path, "wb").write(key2 if then == "other-valid" else b"q" * 40)
+        try:
+            with kf:
+                sv2 = kf.encrypt("payload", method="xor")
+            used2 = bytes(a ^ b for a, b in zip(sv2.ciphertext, b"payload"))
+        except Exception:  # noqa
+            used2 = None
+        if used1 != key1[:7] or (then == "other-valid" and used2 != key2[:7]) or (then == "malformed" and used2 is not None):
+            res.violate("C07:other-key-used", "after a refused open, later sessions do not follow the key file (a cached key is used / a malformed file accepted)", case)
+
 def run(ctx, n_quick=400, n_thorough=20000):
     res = Result()
+    guard(res, "C07", middle_key_file_stream, ctx, res)
+    guard(res, "C07", provider_hook_and_failed_open_stream, ctx, res)
     guard(res, "C07", linked_key_file_stream, ctx, res)
     guard(res, "C07", failed_load_and_inner_generate_stream, ctx, res)
     guard(res, "C07", config_sessions_stream, ctx, res)
